@@ -229,3 +229,63 @@ Print Assumptions C03_nonvacuous_edges.
 Print Assumptions C03_nonvacuous_walk.
 Print Assumptions C03_nonvacuous_max_path.
 Print Assumptions C03_nonvacuous_prune.
+
+(* ==== composition with C01 (work package compose1) ============================================================= *)
+(* compress_kmers outputs satisfy graph_ok.  For EVERY table meeting C01's hypotheses [tbl_ok], [exts_sym] and
+   [exts_sym_pal] the graph returned by compress_kmers is graph_ok - so edges_symmetric, max_path_valid and
+   path_spelling above apply to every graph the construction produces, not only to those accepted by chk_graph_ok.
+   [exts_sym_pal] is the one thing C01's [exts_sym] leaves open: C01 exempts PALINDROMIC targets altogether (the code
+   never enters them); graph_ok asks that a palindromic single-k-mer node stores the return extension on one of its
+   two sides, so this is asked of the table: an extension (d, b) of key x leading to a palindromic key y is answered
+   at y by the base x loses on side d.flip(), or by its complement on side d.  Tables with extensions derived from set
+   membership satisfy all three hypotheses (C03_no_exts_graph_ok); for filter_kmers + remove_censored_exts tables they
+   are decidable (exts_symb, exts_sym_palb) but not proved here.  [exts_closed] is NOT needed (graph_ok's symmetry
+   clause speaks about resolvable extensions only).
+   Proof: wf_graph from C01's node structure; ends_ok from C01's partition via C03_kmers_once_ends_ok; the return
+   extensions from C01's terminal_ok (a node's extension byte = the extensions of its two end k-mers in the node's
+   frame), the table symmetry transported to the frames of the two k-mer occurrences, and - for a palindromic
+   target - the fact that a palindromic key is never merged (C01's step relation refuses it), so it is a
+   single-k-mer node whose two terminal k-mers coincide. *)
+From DBG Require Spec.CompressSpec Check.CompressHyp Proofs.CompressHypProofs Proofs.CompressGraphOk.
+
+Theorem C03_compress_graph_ok : forall (D : Type) (reduce : D -> D -> D) (join : D -> D -> bool) (K : nat) (stranded : bool),
+  1 <= K -> forall T : Compress.table D,
+  CompressSpec.tbl_ok D K stranded T -> CompressSpec.exts_sym D stranded T -> CompressGraphOk.exts_sym_pal D stranded T ->
+  exists nodes, Compress.compress_kmers D reduce join stranded T = Some nodes /\ graph_ok D K stranded nodes.
+Proof. exact CompressGraphOk.compress_graph_ok. Qed.
+Print Assumptions C03_compress_graph_ok.
+
+(* the third entry point (extensions derived from set membership): no hypothesis beyond distinct, well-formed,
+   canonical k-mers *)
+Theorem C03_no_exts_graph_ok : forall (D : Type) (K : nat) (stranded : bool), 1 <= K -> forall kds : list (dna * D),
+  NoDup (map fst kds) ->
+  (forall k, In k (map fst kds) -> length k = K /\ wf_dna k /\ (stranded = false -> canon k = k)) ->
+  forall reduce join,
+  exists nodes, Compress.compress_kmers D reduce join stranded (DeriveExts.derived_table D stranded kds) = Some nodes /\
+                graph_ok D K stranded nodes.
+Proof. exact CompressGraphOk.no_exts_graph_ok. Qed.
+Print Assumptions C03_no_exts_graph_ok.
+
+(* the additional hypothesis is decidable *)
+Theorem C03_exts_sym_pal_decidable : forall (D : Type) (stranded : bool) (T : Compress.table D),
+  CompressGraphOk.exts_sym_palb D stranded T = true -> CompressGraphOk.exts_sym_pal D stranded T.
+Proof. exact CompressGraphOk.exts_sym_palb_sound. Qed.
+Print Assumptions C03_exts_sym_pal_decidable.
+
+(* non-vacuity: K = 4, unstranded, the canonical 4-mers of ACGTTGCAACTCCGA (two palindromes, ACGT and TGCA, both
+   targets of extensions) with extensions derived from membership *)
+Definition C03_ex_keys : list dna :=
+  nodup (list_eq_dec N.eq_dec) (map canon (kmers 4 [0;1;2;3;3;2;1;0;0;1;3;1;1;2;0]%N)).
+Definition C03_ex_table : Compress.table unit := map (fun k => (k, Compress.derive_exts false C03_ex_keys k, tt)) C03_ex_keys.
+Example C03_nonvacuous_compress_graph_ok :
+  CompressSpec.tbl_ok unit 4 false C03_ex_table /\ CompressSpec.exts_sym unit false C03_ex_table /\
+  CompressGraphOk.exts_sym_pal unit false C03_ex_table /\
+  map fst (map fst (match Compress.compress_kmers unit (fun _ _ => tt) (fun _ _ => true) false C03_ex_table with
+                    | Some nodes => nodes | None => [] end)) =
+    [[0;1;2;3]; [0;0;1;2]; [3;2;1;0]; [2;1;0;0;1]; [0;0;1;3;1;1;2;0]]%N.
+Proof.
+  split; [apply CompressHypProofs.tbl_okb_sound; vm_compute; reflexivity|].
+  split; [apply CompressHypProofs.exts_symb_sound; vm_compute; reflexivity|].
+  split; [apply CompressGraphOk.exts_sym_palb_sound; vm_compute; reflexivity | vm_compute; reflexivity].
+Qed.
+Print Assumptions C03_nonvacuous_compress_graph_ok.
